@@ -101,6 +101,13 @@ pub open spec fn ens_add(a: real, b: real, r: real) -> bool { r == a + b }
 pub open spec fn ens_sub(a: real, b: real, r: real) -> bool { r == a - b }
 /// IEEE division by zero does not trap; the quotient is specified for non-zero divisors only
 pub open spec fn ens_div(a: real, b: real, r: real) -> bool { b != 0real ==> r == a / b }
+impl vstd::std_specs::ops::NegSpecImpl for Sc {
+  open spec fn obeys_neg_spec() -> bool { false }
+  open spec fn neg_req(self) -> bool { true }
+  open spec fn neg_spec(self) -> Sc { arbitrary() }
+}
+impl core::ops::Neg for Sc { type Output = Sc;
+  #[verifier::external_body] fn neg(self) -> (r: Sc) ensures r@ == -self@ { unimplemented!() } }
 sc_binop!(Mul, MulSpecImpl, mul, obeys_mul_spec, mul_req, mul_spec, ens_mul);
 sc_binop!(Add, AddSpecImpl, add, obeys_add_spec, add_req, add_spec, ens_add);
 sc_binop!(Sub, SubSpecImpl, sub, obeys_sub_spec, sub_req, sub_spec, ens_sub);
@@ -134,6 +141,7 @@ macro_rules! f64_binop {
     }
   };
 }
+f64_binop!(Sub, SubSpecImpl, sub, obeys_sub_spec, sub_req, sub_spec, ens_sub);
 f64_binop!(Mul, MulSpecImpl, mul, obeys_mul_spec, mul_req, mul_spec, ens_mul);
 f64_binop!(Add, AddSpecImpl, add, obeys_add_spec, add_req, add_spec, ens_add);
 f64_binop!(Div, DivSpecImpl, div, obeys_div_spec, div_req, div_spec, ens_div);
@@ -393,13 +401,41 @@ macro_rules! mat_binop {
 }
 impl MView { pub open spec fn ok(&self) -> bool { true } }
 mat_binop!(Mul, MulSpecImpl, mul, obeys_mul_spec, mul_req, mul_spec, &'a DMatrix, &'b DMatrix, mul_ok, mmul, ['a, 'b]);
+mat_binop!(Sub, SubSpecImpl, sub, obeys_sub_spec, sub_req, sub_spec, &'a DMatrix, &'b DMatrix, sub_ok, msub, ['a, 'b]);
+mat_binop!(Add, AddSpecImpl, add, obeys_add_spec, add_req, add_spec, &'a DMatrix, &'b DMatrix, sub_ok, madd, ['a, 'b]);
 mat_binop!(Mul, MulSpecImpl, mul, obeys_mul_spec, mul_req, mul_spec, &'a DMatrix, DMatrix, mul_ok, mmul, ['a]);
-mat_binop!(Mul, MulSpecImpl, mul, obeys_mul_spec, mul_req, mul_spec, DMatrix, &'b DMatrix, mul_ok, mmul, ['b]);
-mat_binop!(Mul, MulSpecImpl, mul, obeys_mul_spec, mul_req, mul_spec, DMatrix, DMatrix, mul_ok, mmul, []);
-mat_binop!(Mul, MulSpecImpl, mul, obeys_mul_spec, mul_req, mul_spec, DMatrix, MView, mul_ok, mmul, []);
 mat_binop!(Sub, SubSpecImpl, sub, obeys_sub_spec, sub_req, sub_spec, &'a DMatrix, DMatrix, sub_ok, msub, ['a]);
+mat_binop!(Add, AddSpecImpl, add, obeys_add_spec, add_req, add_spec, &'a DMatrix, DMatrix, sub_ok, madd, ['a]);
+mat_binop!(Mul, MulSpecImpl, mul, obeys_mul_spec, mul_req, mul_spec, DMatrix, &'b DMatrix, mul_ok, mmul, ['b]);
+mat_binop!(Sub, SubSpecImpl, sub, obeys_sub_spec, sub_req, sub_spec, DMatrix, &'b DMatrix, sub_ok, msub, ['b]);
+mat_binop!(Add, AddSpecImpl, add, obeys_add_spec, add_req, add_spec, DMatrix, &'b DMatrix, sub_ok, madd, ['b]);
+mat_binop!(Mul, MulSpecImpl, mul, obeys_mul_spec, mul_req, mul_spec, DMatrix, DMatrix, mul_ok, mmul, []);
 mat_binop!(Sub, SubSpecImpl, sub, obeys_sub_spec, sub_req, sub_spec, DMatrix, DMatrix, sub_ok, msub, []);
+mat_binop!(Add, AddSpecImpl, add, obeys_add_spec, add_req, add_spec, DMatrix, DMatrix, sub_ok, madd, []);
+mat_binop!(Mul, MulSpecImpl, mul, obeys_mul_spec, mul_req, mul_spec, DMatrix, MView, mul_ok, mmul, []);
+mat_binop!(Sub, SubSpecImpl, sub, obeys_sub_spec, sub_req, sub_spec, DMatrix, MView, sub_ok, msub, []);
+mat_binop!(Add, AddSpecImpl, add, obeys_add_spec, add_req, add_spec, DMatrix, MView, sub_ok, madd, []);
+mat_binop!(Mul, MulSpecImpl, mul, obeys_mul_spec, mul_req, mul_spec, &'a DMatrix, MView, mul_ok, mmul, ['a]);
+mat_binop!(Sub, SubSpecImpl, sub, obeys_sub_spec, sub_req, sub_spec, &'a DMatrix, MView, sub_ok, msub, ['a]);
+mat_binop!(Add, AddSpecImpl, add, obeys_add_spec, add_req, add_spec, &'a DMatrix, MView, sub_ok, madd, ['a]);
+mat_binop!(Mul, MulSpecImpl, mul, obeys_mul_spec, mul_req, mul_spec, MView, DMatrix, mul_ok, mmul, []);
 mat_binop!(Sub, SubSpecImpl, sub, obeys_sub_spec, sub_req, sub_spec, MView, DMatrix, sub_ok, msub, []);
+mat_binop!(Add, AddSpecImpl, add, obeys_add_spec, add_req, add_spec, MView, DMatrix, sub_ok, madd, []);
+mat_binop!(Mul, MulSpecImpl, mul, obeys_mul_spec, mul_req, mul_spec, MView, &'b DMatrix, mul_ok, mmul, ['b]);
+mat_binop!(Sub, SubSpecImpl, sub, obeys_sub_spec, sub_req, sub_spec, MView, &'b DMatrix, sub_ok, msub, ['b]);
+mat_binop!(Add, AddSpecImpl, add, obeys_add_spec, add_req, add_spec, MView, &'b DMatrix, sub_ok, madd, ['b]);
+mat_binop!(Mul, MulSpecImpl, mul, obeys_mul_spec, mul_req, mul_spec, MView, MView, mul_ok, mmul, []);
+mat_binop!(Sub, SubSpecImpl, sub, obeys_sub_spec, sub_req, sub_spec, MView, MView, sub_ok, msub, []);
+mat_binop!(Add, AddSpecImpl, add, obeys_add_spec, add_req, add_spec, MView, MView, sub_ok, madd, []);
+
+/// unary minus
+impl vstd::std_specs::ops::NegSpecImpl for DMatrix {
+  open spec fn obeys_neg_spec() -> bool { false }
+  open spec fn neg_req(self) -> bool { self.ok() }
+  open spec fn neg_spec(self) -> DMatrix { arbitrary() }
+}
+impl core::ops::Neg for DMatrix { type Output = DMatrix;
+  #[verifier::external_body] fn neg(self) -> (r: DMatrix) ensures r@ == scale(self@, -1real), r.ok() { unimplemented!() } }
 
 // =============================================================================== SVD
 // nalgebra linalg/svd.rs. `svd(true, true)` = SVD::new = try_new(.., eps, max_niter = 0).unwrap() followed by
